@@ -37,7 +37,7 @@ func Programs() []*Prog {
 	z := &idl.File{Path: "z.thrift", Includes: []*idl.Include{{Path: "y/common.thrift", File: y}}, Namespaces: []*idl.Namespace{{Lang: "go", Name: "r.z"}}}
 	zs := &idl.Struct{Cat: "struct", Name: "ZS", Fields: []*idl.Field{{ID: 1, ExplicitID: true, Name: "c", Type: idl.StructT(c2)}}}
 	z.Add(zs)
-	e := &idl.Enum{Name: "AE", Values: []*idl.EnumValue{{Name: "P", Anns: ann("ev", "1", "ev", "2")}, {Name: "Q", Value: 9, Explicit: true}, {Name: "R"}}, Anns: ann("en", "a", "other", "b", "en", "c")}
+	e := &idl.Enum{Name: "AE", Values: []*idl.EnumValue{{Name: "P", Anns: ann("ev", "1", "other", "x", "ev", "2", "third", "y")}, {Name: "Q", Value: 9, Explicit: true}, {Name: "R"}}, Anns: ann("en", "a", "other", "b", "en", "c")}
 	m := &idl.File{Path: "top.thrift", Includes: []*idl.Include{{Path: "x/common.thrift", File: x}, {Path: "z.thrift", File: z}}, Namespaces: []*idl.Namespace{{Lang: "go", Name: "r.top", Anns: ann("nsa", "1")}, {Lang: "py", Name: "r_top"}}}
 	m.Add(e)
 	at := idl.T(idl.String)
